@@ -331,32 +331,79 @@ func (x *Ctx) fastLoopRule(r *core.Result, rs *core.RuleStat, name string) {
 		fail("start", "cannot identify the position after the opening quote", fn.Pos())
 		return
 	}
-	n := 0
-	for _, b := range fn.Blocks {
-		for _, ins := range b.Instrs {
-			var seg ssa.Value
-			switch t := ins.(type) {
-			case *ssa.Call:
-				if bi, isB := t.Call.Value.(*ssa.Builtin); isB && bi.Name() == "append" && len(t.Call.Args) == 2 {
-					seg = t.Call.Args[1]
+	// the function itself and the private helpers it hands the input to (readEscapedString(data, start, p, buf)):
+	// a helper's parameters stand for the caller's values
+	type view struct {
+		fn   *ssa.Function
+		bind map[ssa.Value]ssa.Value
+	}
+	views := []view{{fn, nil}}
+	for vi := 0; vi < len(views) && vi < 8; vi++ {
+		v := views[vi]
+		for _, b := range v.fn.Blocks {
+			for _, ins := range b.Instrs {
+				c, isCall := ins.(*ssa.Call)
+				if !isCall {
+					continue
 				}
-			case *ssa.Convert:
-				if isStringType(t.Type()) && isByteSliceT(t.X.Type()) {
-					if sl, isSl := t.X.(*ssa.Slice); isSl && sl.X == ssa.Value(data) {
-						seg = t.X
+				h := c.Call.StaticCallee()
+				if h == nil || !x.isPrivateHelper(h) || h.Blocks == nil || x.Machine(h.Name()) != nil || len(h.Params) != len(c.Call.Args) {
+					continue
+				}
+				bind := map[ssa.Value]ssa.Value{}
+				takesData := false
+				for i, a := range c.Call.Args {
+					if ra, ok := v.bind[a]; ok {
+						a = ra
+					}
+					bind[h.Params[i]] = a
+					if a == ssa.Value(data) {
+						takesData = true
 					}
 				}
+				if takesData {
+					views = append(views, view{h, bind})
+				}
 			}
-			if seg == nil {
-				continue
+		}
+	}
+	n := 0
+	for _, v := range views {
+		rv := func(u ssa.Value) ssa.Value {
+			if u == nil {
+				return nil
 			}
-			sl, isSl := seg.(*ssa.Slice)
-			if !isSl || sl.X != ssa.Value(data) {
-				continue
+			if b, ok := v.bind[u]; ok {
+				return b
 			}
-			n++
-			if sl.Low != start || !cursors[sl.High] {
-				fail("segment", "the bytes copied are not data[<after the opening quote> : <cursor>]", ins.Pos())
+			return u
+		}
+		for _, b := range v.fn.Blocks {
+			for _, ins := range b.Instrs {
+				var seg ssa.Value
+				switch t := ins.(type) {
+				case *ssa.Call:
+					if bi, isB := t.Call.Value.(*ssa.Builtin); isB && bi.Name() == "append" && len(t.Call.Args) == 2 {
+						seg = t.Call.Args[1]
+					}
+				case *ssa.Convert:
+					if isStringType(t.Type()) && isByteSliceT(t.X.Type()) {
+						if sl, isSl := t.X.(*ssa.Slice); isSl && rv(sl.X) == ssa.Value(data) {
+							seg = t.X
+						}
+					}
+				}
+				if seg == nil {
+					continue
+				}
+				sl, isSl := seg.(*ssa.Slice)
+				if !isSl || rv(sl.X) != ssa.Value(data) {
+					continue
+				}
+				n++
+				if rv(sl.Low) != start || !cursors[rv(sl.High)] {
+					fail("segment", "the bytes copied are not data[<after the opening quote> : <cursor>]", ins.Pos())
+				}
 			}
 		}
 	}
@@ -364,12 +411,23 @@ func (x *Ctx) fastLoopRule(r *core.Result, rs *core.RuleStat, name string) {
 		fail("segments", fmt.Sprintf("only %d copies of the unescaped prefix found (closing quote and first escape expected)", n), fn.Pos())
 	}
 	// machine calls get data[cursor:]
-	for _, b := range fn.Blocks {
-		for _, ins := range b.Instrs {
-			if c, isCall := ins.(*ssa.Call); isCall && c.Call.StaticCallee() != nil && x.Machine(c.Call.StaticCallee().Name()) != nil {
-				sl, isSl := c.Call.Args[0].(*ssa.Slice)
-				if !isSl || sl.X != ssa.Value(data) || !cursors[sl.Low] || sl.High != nil {
-					fail("handover", "the escape machine is not started at the cursor (data[p:])", c.Pos())
+	for _, v := range views {
+		rv := func(u ssa.Value) ssa.Value {
+			if u == nil {
+				return nil
+			}
+			if b, ok := v.bind[u]; ok {
+				return b
+			}
+			return u
+		}
+		for _, b := range v.fn.Blocks {
+			for _, ins := range b.Instrs {
+				if c, isCall := ins.(*ssa.Call); isCall && c.Call.StaticCallee() != nil && x.Machine(c.Call.StaticCallee().Name()) != nil {
+					sl, isSl := c.Call.Args[0].(*ssa.Slice)
+					if !isSl || rv(sl.X) != ssa.Value(data) || !cursors[rv(sl.Low)] || sl.High != nil {
+						fail("handover", "the escape machine is not started at the cursor (data[p:])", c.Pos())
+					}
 				}
 			}
 		}
@@ -689,36 +747,106 @@ func (x *Ctx) unescapeUnicodeRule(r *core.Result, rs *core.RuleStat) {
 		}
 		return false
 	}
-	encodeFor := func(b *ssa.BasicBlock) *ssa.Call {
-		for d := b; d != nil; d = d.Idom() {
-			for i := len(d.Instrs) - 1; i >= 0; i-- {
-				if c, isCall := d.Instrs[i].(*ssa.Call); isCall && c.Call.StaticCallee() != nil && c.Call.StaticCallee().Name() == "EncodeRune" && len(c.Call.Args) == 2 {
-					return c
+	_ = judge6
+	_ = factsOnEdge
+	// every path from the entry to a return (the function has no loop): phis are resolved by the edge taken, facts
+	// come from the branches taken
+	var paths [][]*ssa.BasicBlock
+	var walk func(path []*ssa.BasicBlock) bool
+	walk = func(path []*ssa.BasicBlock) bool {
+		b := path[len(path)-1]
+		if len(paths) > 256 {
+			return false
+		}
+		if len(b.Succs) == 0 {
+			paths = append(paths, append([]*ssa.BasicBlock(nil), path...))
+			return true
+		}
+		for _, sc := range b.Succs {
+			for _, q := range path {
+				if q == sc {
+					return false // a loop
 				}
 			}
+			if !walk(append(path, sc)) {
+				return false
+			}
 		}
-		return nil
+		return true
 	}
-	for _, b := range fn.Blocks {
-		ret, isRet := b.Instrs[len(b.Instrs)-1].(*ssa.Return)
+	if !walk([]*ssa.BasicBlock{fn.Blocks[0]}) {
+		r.Undecided(rs, "unescapeUnicodeChar:paths", w.Pos(fn.Pos()), "the function has a loop or too many paths: its returns cannot be enumerated")
+		return
+	}
+	dst := fn.Params[1]
+	for _, path := range paths {
+		last := path[len(path)-1]
+		ret, isRet := last.Instrs[len(last.Instrs)-1].(*ssa.Return)
 		if !isRet || len(ret.Results) != 3 {
 			continue
 		}
-		n, isC := constBig(ret.Results[1])
-		okc, isB := ret.Results[2].(*ssa.Const)
+		idx := map[*ssa.BasicBlock]int{}
+		for i, b := range path {
+			idx[b] = i
+		}
+		var resolve func(v ssa.Value) ssa.Value
+		resolve = func(v ssa.Value) ssa.Value {
+			for {
+				phi, isPhi := v.(*ssa.Phi)
+				if !isPhi {
+					return v
+				}
+				i, on := idx[phi.Block()]
+				if !on || i == 0 {
+					return v
+				}
+				found := false
+				for k, pred := range phi.Block().Preds {
+					if pred == path[i-1] {
+						v = phi.Edges[k]
+						found = true
+						break
+					}
+				}
+				if !found {
+					return v
+				}
+			}
+		}
+		var f facts
+		for i := 0; i+1 < len(path); i++ {
+			if iff, isIf := path[i].Instrs[len(path[i].Instrs)-1].(*ssa.If); isIf && path[i].Succs[0] != path[i].Succs[1] {
+				classify(iff.Cond, path[i+1] == path[i].Succs[0], &f)
+			}
+		}
+		if f.sur && f.notSur || f.pairValid && f.pairInvalid {
+			continue // contradictory branch outcomes: not a feasible path
+		}
+		n, isC := constBig(resolve(ret.Results[1]))
+		okc, isB := resolve(ret.Results[2]).(*ssa.Const)
 		if !isC || !isB || okc.Value == nil {
-			fail("return-shape", "bytes handled / ok are not constants per path", ret.Pos())
+			fail("return-shape", "bytes handled / ok are not determined by the path taken", ret.Pos())
 			continue
 		}
 		if !constant.BoolVal(okc.Value) {
 			continue
 		}
-		enc := encodeFor(b)
+		// the rune encoded on this path: the last EncodeRune / AppendRune executed
+		var enc *ssa.Call
+		for _, b := range path {
+			for _, ins := range b.Instrs {
+				if c, isCall := ins.(*ssa.Call); isCall && c.Call.StaticCallee() != nil && c.Call.StaticCallee().Pkg != nil && c.Call.StaticCallee().Pkg.Pkg.Path() == "unicode/utf8" && len(c.Call.Args) == 2 {
+					if nm := c.Call.StaticCallee().Name(); nm == "EncodeRune" || nm == "AppendRune" {
+						enc = c
+					}
+				}
+			}
+		}
 		if enc == nil {
 			fail("encode", "a success path does not encode a rune", ret.Pos())
 			continue
 		}
-		f := factsAt(b)
+		R := resolve(enc.Call.Args[1])
 		switch n.Int64() {
 		case 12:
 			if !f.sur {
@@ -727,18 +855,34 @@ func (x *Ctx) unescapeUnicodeRule(r *core.Result, rs *core.RuleStat) {
 			if !f.pairValid {
 				fail("pair-valid", "12 bytes are reported although the pair may be invalid (DecodeRune returned U+FFFD)", ret.Pos())
 			}
-			if enc.Call.Args[1] != ssa.Value(dec) {
+			if R != ssa.Value(dec) {
 				fail("pair-encode", "the rune written for a valid pair is not DecodeRune's result", ret.Pos())
 			}
 		case 6:
 			if f.sur && f.pairValid {
 				fail("single-count", "a valid surrogate pair is reported as 6 bytes", ret.Pos())
 			}
-			if !judge6(enc.Call.Args[1], factsAt(enc.Block()), enc.Block(), map[ssa.Value]bool{}) {
+			good := false
+			switch {
+			case R == ssa.Value(first):
+				good = f.notSur // the code unit itself is right only when it is not a surrogate
+			case R == ssa.Value(dec):
+				good = f.sur && f.pairInvalid // DecodeRune's result was found to be U+FFFD on this path
+			default:
+				if k, isK := constBig(R); isK && k.Int64() == 0xFFFD {
+					good = f.sur && f.pairInvalid // the replacement character only for an unpaired surrogate
+				}
+			}
+			if !good {
 				fail("single-encode", "the rune written for a single escape is not the code unit itself (U+FFFD for an unpaired surrogate)", ret.Pos())
 			}
 		default:
 			fail("count", fmt.Sprintf("a success path reports %d bytes handled (must be 6 or 12)", n.Int64()), ret.Pos())
+		}
+		// what is returned: the destination followed by exactly the bytes EncodeRune produced for that rune
+		if msg := x.encodedOutput(resolve(ret.Results[0]), enc, R, dst, resolve); msg != "" {
+			r.Undecided(rs, "unescapeUnicodeChar:output", w.Pos(ret.Pos()), msg)
+			ok = false
 		}
 	}
 	if ok {
@@ -813,4 +957,65 @@ func (x *Ctx) globalWritten(g *ssa.Global) bool {
 		}
 	}
 	return false
+}
+
+// encodedOutput: out is the destination dst followed by exactly the encoding of the rune R that the call enc
+// produced: dst'[:len(dst)+w] with enc = EncodeRune(dst'[len(dst):], R) and w its result (or RuneLen(R)), or
+// append(dst, buf[:w]...) with enc = EncodeRune(buf[:], R), or utf8.AppendRune(dst, R). "" if so.
+func (x *Ctx) encodedOutput(out ssa.Value, enc *ssa.Call, R ssa.Value, dst *ssa.Parameter, resolve func(ssa.Value) ssa.Value) string {
+	isLenDst := func(v ssa.Value) bool {
+		c, ok := resolve(v).(*ssa.Call)
+		if !ok {
+			return false
+		}
+		bi, ok := c.Call.Value.(*ssa.Builtin)
+		return ok && bi.Name() == "len" && resolve(c.Call.Args[0]) == ssa.Value(dst)
+	}
+	isWidth := func(v ssa.Value) bool {
+		v = resolve(v)
+		if v == ssa.Value(enc) && enc.Call.StaticCallee().Name() == "EncodeRune" {
+			return true
+		}
+		if c, ok := v.(*ssa.Call); ok && c.Call.StaticCallee() != nil && c.Call.StaticCallee().Pkg != nil && c.Call.StaticCallee().Pkg.Pkg.Path() == "unicode/utf8" && c.Call.StaticCallee().Name() == "RuneLen" {
+			return resolve(c.Call.Args[0]) == R
+		}
+		return false
+	}
+	switch o := out.(type) {
+	case *ssa.Call:
+		if o == enc && enc.Call.StaticCallee().Name() == "AppendRune" {
+			if resolve(enc.Call.Args[0]) == ssa.Value(dst) {
+				return ""
+			}
+			return "utf8.AppendRune is not applied to the destination"
+		}
+		if bi, ok := o.Call.Value.(*ssa.Builtin); ok && bi.Name() == "append" && len(o.Call.Args) == 2 {
+			if resolve(o.Call.Args[0]) != ssa.Value(dst) {
+				return "the encoded bytes are appended to something other than the destination"
+			}
+			piece, ok := resolve(o.Call.Args[1]).(*ssa.Slice)
+			if !ok || piece.Low != nil || piece.High == nil || !isWidth(piece.High) {
+				return "the bytes appended are not buf[:w] with w the width EncodeRune reported"
+			}
+			target, ok := resolve(enc.Call.Args[0]).(*ssa.Slice)
+			if !ok || target.X != piece.X || target.Low != nil {
+				return "the bytes appended do not come from the array EncodeRune wrote into"
+			}
+			return ""
+		}
+	case *ssa.Slice:
+		if o.Low != nil || o.High == nil {
+			return "the result is not destination[:len+w]"
+		}
+		hi, ok := resolve(o.High).(*ssa.BinOp)
+		if !ok || hi.Op != token.ADD || !((isLenDst(hi.X) && isWidth(hi.Y)) || (isLenDst(hi.Y) && isWidth(hi.X))) {
+			return "the result's length is not the destination's length plus the width of the rune written"
+		}
+		target, ok := resolve(enc.Call.Args[0]).(*ssa.Slice)
+		if !ok || resolve(target.X) != resolve(o.X) || target.High != nil || target.Low == nil || !isLenDst(target.Low) {
+			return "the rune is not encoded at the destination's old end (dst[len:])"
+		}
+		return ""
+	}
+	return fmt.Sprintf("the form of the returned slice is not understood (%T)", out)
 }
